@@ -7,6 +7,7 @@ import (
 	"strings"
 	"testing"
 
+	"github.com/ovn-org/libovsdb/mapper"
 	"github.com/ovn-org/libovsdb/model"
 	"github.com/ovn-org/libovsdb/ovsdb"
 	"pgregory.net/rapid"
@@ -152,6 +153,39 @@ func TestC09(t *testing.T) {
 			}
 		}
 
+		// CreateModel from rows that list only some columns, or none at all (the update2 insert of
+		// a row whose columns all hold defaults): the uuid passed separately is the model's
+		// uuid, listed columns arrive, the others hold their defaults
+		for _, keep := range []int{0, rapid.IntRange(0, len(tb.Cols)).Draw(t, "createmodelcols")} {
+			sparse := ovsdb.Row{}
+			n := 0
+			for _, c := range tb.Cols {
+				if n < keep {
+					if v, ok := back[c.Name]; ok {
+						sparse[c.Name] = v
+					}
+					n++
+				}
+			}
+			sm, err := model.CreateModel(w.DBModel, tb.Name, &sparse, uuid)
+			if err != nil {
+				kit.Fail(t, "C09", "mapper.createmodel", kase, "CreateModel from a row with %d of %d columns: %v", len(sparse), len(tb.Cols), err)
+			}
+			su, srow, err := w.RowFromModel(tb.Name, sm)
+			if err != nil || su != uuid {
+				kit.Fail(t, "C09", "mapper.createmodel", kase, "CreateModel from a row with %d columns: model uuid %q, want %q (%v)", len(sparse), su, uuid, err)
+			}
+			for _, c := range tb.Cols {
+				want := c.Default()
+				if _, ok := sparse[c.Name]; ok {
+					want = row[c.Name]
+				}
+				if !kit.EqVal(srow[c.Name], want) && !(c.Key.T == kit.TUUID && c.Shape() == kit.ShScalar && c.IsDefault(want)) {
+					kit.Fail(t, "C09", "mapper.roundtrip", kase, "CreateModel from a sparse row: column %s is %s, want %s", c.Name, srow[c.Name].Key(), want.Key())
+				}
+			}
+		}
+
 		// default row: default-valued columns are skipped and must leave the sentinels untouched;
 		// the others must arrive
 		part, err := mp.NewRow(info)
@@ -206,6 +240,32 @@ func TestC09(t *testing.T) {
 				kit.Fail(t, "C09", "mapper.wrongtype-accepted", kase, "SetField(%s %s, %T) accepted", c.Name, c.GoType(), wn)
 			}
 		}
+		// a model whose field for the column has another type - also one that the column's
+		// native value could be assigned to (interface{}, a defined type over the same
+		// underlying type) - is refused by the schema-driven type check
+		base := w.Types[tb.Name].Elem()
+		var nearMiss []reflect.Type
+		nearMiss = append(nearMiss, reflect.TypeOf((*interface{})(nil)).Elem())
+		for _, d := range definedTypes {
+			if d.Kind() == c.GoType().Kind() && d.ConvertibleTo(c.GoType()) && d != c.GoType() && sameUnderlying(d, c.GoType()) {
+				nearMiss = append(nearMiss, d)
+			}
+		}
+		nearMiss = append(nearMiss, reflect.TypeOf(struct{}{}))
+		for _, wrongT := range nearMiss {
+			fields := make([]reflect.StructField, 0, base.NumField())
+			for i := 0; i < base.NumField(); i++ {
+				f := base.Field(i)
+				if f.Tag.Get("ovsdb") == c.Name {
+					f.Type = wrongT
+				}
+				fields = append(fields, f)
+			}
+			obj := reflect.New(reflect.StructOf(fields)).Interface()
+			if _, err := mapper.NewInfo(tb.Name, w.DBSchema.Table(tb.Name), obj); err == nil {
+				kit.Fail(t, "C09", "mapper.wrongfieldtype-accepted", kase, "a model whose field for column %s (%s) has type %s passes the schema-driven type check", c.Name, c.GoType(), wrongT)
+			}
+		}
 		for _, ww := range wrongWire(c) {
 			if v, err := ovsdb.OvsToNative(cs, ww); err == nil {
 				kit.Fail(t, "C09", "mapper.wrongkind-accepted", kase, "OvsToNative(%s: %s of %s, %#v) = %#v, want an error", c.Name, c.Shape(), c.Key.T, ww, v)
@@ -228,6 +288,48 @@ func tableSig(tb kit.Table) string {
 		parts = append(parts, p)
 	}
 	return strings.Join(parts, ",")
+}
+
+// defined types over the native types of columns.
+type (
+	dInt   int
+	dReal  float64
+	dBool  bool
+	dStr   string
+	dInts  []int
+	dStrs  []string
+	dReals []float64
+	dPtrI  *int
+	dPtrS  *string
+	dMapSS map[string]string
+	dMapSI map[string]int
+	dMapIS map[int]string
+	dMapII map[int]int
+	dMapSR map[string]float64
+	dMapSB map[string]bool
+	dBools []bool
+	dPtrR  *float64
+	dPtrB  *bool
+)
+
+var definedTypes = []reflect.Type{reflect.TypeOf(dInt(0)), reflect.TypeOf(dReal(0)), reflect.TypeOf(dBool(false)), reflect.TypeOf(dStr("")),
+	reflect.TypeOf(dInts(nil)), reflect.TypeOf(dStrs(nil)), reflect.TypeOf(dReals(nil)), reflect.TypeOf(dPtrI(nil)), reflect.TypeOf(dPtrS(nil)),
+	reflect.TypeOf(dMapSS(nil)), reflect.TypeOf(dMapSI(nil)), reflect.TypeOf(dMapIS(nil)), reflect.TypeOf(dMapII(nil)), reflect.TypeOf(dMapSR(nil)),
+	reflect.TypeOf(dMapSB(nil)), reflect.TypeOf(dBools(nil)), reflect.TypeOf(dPtrR(nil)), reflect.TypeOf(dPtrB(nil))}
+
+// sameUnderlying: d is a defined type whose underlying type is the (unnamed or predeclared) type t.
+func sameUnderlying(d, t reflect.Type) bool {
+	if d.Kind() != t.Kind() {
+		return false
+	}
+	switch d.Kind() {
+	case reflect.Slice, reflect.Ptr:
+		return d.Elem() == t.Elem()
+	case reflect.Map:
+		return d.Key() == t.Key() && d.Elem() == t.Elem()
+	default:
+		return true
+	}
 }
 
 // wrongWire lists decoded wire values of a kind that does not fit the column.
